@@ -507,6 +507,21 @@ class Enumerator(object):
                     p.value = ('call', 'Ok', (('unit',),), ()) if tryfe else ('unit',)
                 res.append(p)
             return res
+        if k in ('Call', 'MethodCall') and S.norm_path(H.callee_decl(node) or '') == 'std::iter::Extend::extend' and len(H.call_args(node)) == 2:
+            # `set.extend(iter)`: read as the loop `for x in iter { set.insert(x) }`
+            sty = S.norm_path(canon.strip_ty(H.call_args(node)[0].get('ty') or ''))
+            if sty and not sty.startswith(('std::collections::HashMap', 'std::collections::BTreeMap', 'std::string::String')):
+                coll = self.leaf(H.call_args(node)[0], path)
+                it = H.call_args(node)[1]
+                itt = self.leaf(it, path)
+                itt, item = S.iter_view(itt, it)
+                if path.effects and path.effects[-1].startswith('std::collections::HashMap::') and path.effects[-1] != S.show(itt) and itt[0] == 'call' and itt[1] == 'std::collections::HashMap::iter':
+                    path.effects[-1] = S.show(itt)
+                path.effects.append('for _ in %s {' % S.show(itt))
+                path.effects.append('%s::%s(%s, %s)' % (sty, 'push' if sty.startswith('std::vec::Vec') else 'insert', S.show(coll), S.show(item)))
+                path.effects.append('}')
+                path.value = ('unit',)
+                return [path]
         if k in ('Assign',) and self.needs_paths(node['r']):
             out = []
             for p in self.run(node['r'], path):
